@@ -49,6 +49,7 @@ func fileOf(c *Ctx, fn *ssa.Function) string {
 func checkC22(c *Ctx) {
 	c.Rule("C22.args", "command table discipline: in every consoleui.Command literal the Action reads args[k] only for k below the number of declared argument parsers (or under a dominating len(args) > k with an optional-argument parser producing it) and asserts it to the dynamic type that the k-th parser yields")
 	c.Rule("C22.nilfunc", "a function-typed field of Command that some command leaves unset is called only under a nil check")
+	c.Rule("C22.parse", "UI.parseCommand, walked for every number of words (0..4) x every number of mandatory argument parsers (0..3) x optional parser present or not, never indexes or slices the list of words outside its length")
 	c.Rule("C22.input", "user input (the line read, its words, parser arguments) is indexed or sliced with a constant only under a dominating length check")
 	c.Rule("C22.index", "a number typed by the user reaches a listing index (Lines.Index/SetMark/Block/Move, a raw slice index) only after being compared with the number of lines, reduced modulo it, or obtained from the cursor / the listing layout")
 	c.Rule("C22.nil", "a pointer field that its constructor leaves nil in some cases (memoryView.c for an empty memory) is dereferenced only under a nil check")
@@ -58,10 +59,14 @@ func checkC22(c *Ctx) {
 	c.RequireCount("C22.args command literals", n, 17)
 	nf := checkNilFuncFields(c, "C22.nilfunc")
 	c.RequireCount("C22.nilfunc calls through Command fields", nf, 2)
+	pc := checkParseCommandWalk(c, "C22.parse")
 	ni := checkInputIndexing(c, "C22.input", func(fn *ssa.Function) bool {
+		if pc != nil && (fn == pc || fn.Parent() == pc) {
+			return false // decided by the C22.parse walk
+		}
 		return !strings.Contains(fileOf(c, fn), "memview/commands.go") // parseAddr is decided by C30
 	})
-	c.RequireCount("C22.input constant indexing of user input", ni, 1)
+	_ = ni // (today every such site is in parseCommand, which C22.parse walks)
 	nl := checkLineIndices(c, "C22.index", func(fn *ssa.Function) bool { return !isPrintLike(fn) })
 	c.RequireCount("C22.index line-index uses", nl, 8)
 	nn := checkMaybeNilFields(c, "C22.nil", func(fn *ssa.Function) bool { return true })
@@ -1284,7 +1289,7 @@ func headerPhi(p *ssa.Phi) *ssa.Phi {
 func checkC32(c *Ctx) {
 	c.Rule("C32.idiom", "memoryLines merges rows of the same 16-byte window in place and continues with lines[:j] only")
 	c.Rule("C32.index", "memoryView.Print indexes the rows only below their number")
-	c.Rule("C32.rows", "block2Lines cuts a block into rows aligned to bytesPerLine that together cover exactly the block; the address command selects the first row one of whose ranges contains the address, or reports an error")
+	c.Rule("C32.rows", "block2Lines cuts a block into rows aligned to bytesPerLine that together cover exactly the block; the address command, walked over a three-row view with the address in no row / row 0 / 1 / 2, sets the cursor to that row or answers with an error")
 	pkgMv := pkgUI + "/internal/memview"
 	if ml := anchor(c, pkgMv+".memoryLines"); ml != nil {
 		n := checkCompaction(c, "C32.idiom", ml)
@@ -1312,23 +1317,203 @@ func checkC32(c *Ctx) {
 			continue
 		}
 		act := cl.Action
-		contains, errRet := false, false
-		for _, st := range DeepCalls(act, InModulePkg(act)) {
-			if f := Callee(st.Call().Common()); f != nil && NameOf(Origin(f)) == "Containts" {
-				contains = true
+		// the action walked over a view of 3 rows with one range each: the
+		// address lies in no row / in row 0 / in row 1 / in row 2
+		why := ""
+		for target := 0; target <= 3 && why == ""; target++ {
+			probe := 0
+			setArg, setSeen := int64(-1), false
+			var vl *Valuation
+			isContains := func(v ssa.Value) bool {
+				call, ok := v.(*ssa.Call)
+				return ok && call.Call.StaticCallee() != nil && NameOf(Origin(call.Call.StaticCallee())) == "Containts"
 			}
-		}
-		for _, b := range act.Blocks {
-			if ret, ok := b.Instrs[len(b.Instrs)-1].(*ssa.Return); ok && !IsNilConst(ret.Results[0]) {
-				for _, g := range GuardsOf(b) {
-					if bo, ok := g.Cond.(*ssa.BinOp); ok && bo.Op == token.LSS && g.Outcome {
-						if z, isZ := ConstInt(bo.Y); isZ && z == 0 {
-							errRet = true
+			vl = &Valuation{
+				Enter: InModulePkg(act),
+				Int: func(v ssa.Value) (int64, bool) {
+					if call, ok := v.(*ssa.Call); ok && isBuiltin(call, "len") {
+						if n, _, ok := FieldNameOfRead(vl.Root(call.Call.Args[0])); ok {
+							switch n {
+							case "lines":
+								return 3, true
+							case "ranges":
+								return 1, true
+							}
 						}
+					}
+					return 0, false
+				},
+				Bool: func(v ssa.Value) (bool, bool) {
+					if isContains(v) {
+						return probe == target, true
+					}
+					if x, nn, ok := NilCheck(v); ok {
+						if _, isErr := x.Type().Underlying().(*types.Interface); isErr {
+							if call, isCall := vl.Root(x).(*ssa.Call); isCall && call.Call.StaticCallee() != nil && NameOf(call.Call.StaticCallee()) == "Set" {
+								return nn == false, true // the cursor accepts the row
+							}
+						}
+					}
+					return false, false
+				},
+			}
+			vl.Enter = func(g *ssa.Function) bool {
+				return InModulePkg(act)(g) && NameOf(g) != "Set" && NameOf(Origin(g)) != "Containts"
+			}
+			vl.Visit = func(in ssa.Instruction) {
+				if v, ok := in.(ssa.Value); ok && isContains(v) {
+					probe++
+				}
+				if call, ok := in.(*ssa.Call); ok && call.Call.StaticCallee() != nil && NameOf(call.Call.StaticCallee()) == "Set" && !setSeen {
+					if n, ok := vl.EvalInt(call.Call.Args[len(call.Call.Args)-1], nil); ok {
+						setArg, setSeen = n, true
 					}
 				}
 			}
+			res := vl.Walk(act.Blocks[0], nil)
+			_, isRet := res.End.(*ssa.Return)
+			isNil, known := res.RetNil[0]
+			switch {
+			case !res.OK || !isRet:
+				why = "the action cannot be followed: " + res.Why
+			case target == 0:
+				if !known || isNil {
+					why = "an address that lies in no row is not answered with an error"
+				}
+				if setSeen {
+					why = "the cursor is moved although no row contains the address"
+				}
+			default:
+				if !setSeen || setArg != int64(target-1) {
+					why = fmt.Sprintf("the address lies in row %d but the cursor is set to row %d", target-1, setArg)
+				}
+			}
 		}
-		c.Oblige("C32.rows", cmdKey(cl), c.Prog.Pos(cl.Pos), contains && errRet, "the address command does not search the rows' ranges for the address and report an error when none contains it")
+		c.Oblige("C32.rows", cmdKey(cl), c.Prog.Pos(cl.Pos), why == "", "the address command: "+why)
 	}
+}
+
+// checkParseCommandWalk decides C22.parse and returns the walked function.
+func checkParseCommandWalk(c *Ctx, rule string) *ssa.Function {
+	pc := c.Prog.Func("(*" + ModulePath + "/internal/consoleui.UI).parseCommand")
+	if pc == nil || pc.Blocks == nil {
+		c.Undecide("%s: UI.parseCommand not found", rule)
+		return nil
+	}
+	isWords := func(t types.Type) bool {
+		sl, ok := t.Underlying().(*types.Slice)
+		if !ok {
+			return false
+		}
+		b, ok := sl.Elem().Underlying().(*types.Basic)
+		return ok && b.Kind() == types.String
+	}
+	nWalk := 0
+	for words := int64(0); words <= 4; words++ {
+		for nArgs := int64(0); nArgs <= 3; nArgs++ {
+			for _, opt := range []bool{false, true} {
+				words, nArgs, opt := words, nArgs, opt
+				crash := ""
+				var vl *Valuation
+				vl = &Valuation{
+					Int: func(v ssa.Value) (int64, bool) {
+						if call, ok := v.(*ssa.Call); ok && isBuiltin(call, "len") {
+							if n, _, ok := FieldNameOfRead(vl.Root(call.Call.Args[0])); ok && n == "Args" {
+								return nArgs, true
+							}
+						}
+						return 0, false
+					},
+					Bool: func(v ssa.Value) (bool, bool) {
+						// the command is known; argument parsers succeed; the optional
+						// parser is there or not
+						if ex, ok := v.(*ssa.Extract); ok && ex.Index == 1 {
+							if lk, ok := ex.Tuple.(*ssa.Lookup); ok && lk.CommaOk {
+								return true, true // the command is in the table
+							}
+							if call, ok := ex.Tuple.(*ssa.Call); ok && call.Call.StaticCallee() != nil && call.Call.Signature().Results().Len() == 2 {
+								if b, isB := call.Call.Signature().Results().At(1).Type().Underlying().(*types.Basic); isB && b.Kind() == types.Bool {
+									return true, true
+								}
+							}
+						}
+						if x, nn, ok := NilCheck(v); ok {
+							if n, _, isF := FieldNameOfRead(vl.Root(x)); isF && n == "OptionalArgs" {
+								return nn == opt, true
+							}
+							if _, isErr := x.Type().Underlying().(*types.Interface); isErr {
+								return nn == false, true // errors are nil
+							}
+						}
+						return false, false
+					},
+					// the words: whatever the line is split into by calls returning []string
+					Len: func(root ssa.Value) (int64, bool) {
+						if call, ok := root.(*ssa.Call); ok && isWords(call.Type()) {
+							return words, true
+						}
+						if call, ok := root.(*ssa.Call); ok && !isBuiltin(call, "append") {
+							if _, isSl := call.Type().Underlying().(*types.Slice); isSl {
+								return 0, true // what the optional parser returns: of no concern
+							}
+						}
+						return 0, false
+					},
+				}
+				vl.Visit = func(in ssa.Instruction) {
+					if crash != "" {
+						return
+					}
+					check := func(x ssa.Value, lo, hi ssa.Value, isIndex bool) {
+						if !isWords(x.Type()) {
+							return
+						}
+						n, ok := vl.BuiltLen(x)
+						if !ok {
+							crash = "the number of words is lost at " + c.Prog.Pos(in.Pos())
+							return
+						}
+						l, h := int64(0), n
+						if lo != nil {
+							if l, ok = vl.EvalInt(lo, nil); !ok {
+								crash = "an index of the word list cannot be evaluated at " + c.Prog.Pos(in.Pos())
+								return
+							}
+						}
+						if hi != nil {
+							if h, ok = vl.EvalInt(hi, nil); !ok {
+								crash = "a bound of the word list cannot be evaluated at " + c.Prog.Pos(in.Pos())
+								return
+							}
+						}
+						if isIndex && (l < 0 || l >= n) {
+							crash = fmt.Sprintf("word %d of %d is read at %s", l, n, c.Prog.Pos(in.Pos()))
+						}
+						if !isIndex && (l < 0 || h > n || l > h) {
+							crash = fmt.Sprintf("words[%d:%d] of %d words is taken at %s", l, h, n, c.Prog.Pos(in.Pos()))
+						}
+					}
+					switch y := in.(type) {
+					case *ssa.IndexAddr:
+						check(y.X, y.Index, nil, true)
+					case *ssa.Slice:
+						check(y.X, y.Low, y.High, false)
+					}
+				}
+				res := vl.Walk(pc.Blocks[0], nil)
+				key := fmt.Sprintf("%s/words=%d,parsers=%d,optional=%v", ShortName(pc), words, nArgs, opt)
+				switch {
+				case crash != "":
+					c.Fail(rule, key, c.Prog.FuncPos(pc), crash)
+				case !res.OK:
+					c.Fail(rule, key, c.Prog.FuncPos(pc), "not computable: "+res.Why)
+				default:
+					nWalk++
+					c.Pass(rule, key, c.Prog.FuncPos(pc), "")
+				}
+			}
+		}
+	}
+	c.RequireCount(rule+" walks of parseCommand", nWalk, 40)
+	return pc
 }
